@@ -929,3 +929,197 @@ pub fn thm_c18_transparent<CS: CipherSuite, R: RngCore + CryptoRng>(
 {
     ServerLogin::<CS>::start(rng, setup, rec, req, cred_id, ServerLoginStartParameters { context: ctx, identifiers: ids })
 }
+
+// ------------------------------------------------------------------------------------------------ C10: strict, canonical encodings
+// For each of the eleven decoders: whatever byte string is accepted, the REAL encoder maps the decoded value back to exactly that
+// byte string (hence one fixed length, no trailing bytes, no alternative encodings, and two different strings are never the same message).
+// Canonical decoding of KE keys is the KeGroup trait contract (per-impl: Kani / replay); canonical decoding of OPRF elements must be
+// enforced by opaque-ke itself because the dependency's element decoder is not canonical (prelude keeps its real, weak contract).
+pub fn thm_c10_registration_request<CS: CipherSuite>(input: &[u8]) -> (r: Option<GenericArray<u8, RegistrationRequestLen<CS>>>)
+    ensures r is Some ==> r->0@ == input@,
+        //@vacuity
+{
+    proof { broadcast use ga_axioms, seq_sub; lemma_lens::<CS>(); }
+    match RegistrationRequest::<CS>::deserialize(input) { Ok(m) => Some(m.serialize()), Err(_) => None }
+}
+pub fn thm_c10_registration_response<CS: CipherSuite>(input: &[u8]) -> (r: Option<GenericArray<u8, RegistrationResponseLen<CS>>>)
+    ensures r is Some ==> r->0@ == input@,
+        //@vacuity
+{
+    proof {
+        broadcast use ga_axioms, seq_sub; lemma_lens::<CS>();
+        <CS::KeGroup as KeGroup>::lemma_de_pk_canonical(input@.subrange(noe::<CS>() as int, input@.len() as int));
+    }
+    match RegistrationResponse::<CS>::deserialize(input) {
+        Ok(m) => { let o = m.serialize(); proof { assert(input@ =~= input@.subrange(0, noe::<CS>() as int) + input@.subrange(noe::<CS>() as int, input@.len() as int)); } Some(o) }
+        Err(_) => None,
+    }
+}
+pub fn thm_c10_registration_upload<CS: CipherSuite>(input: &[u8]) -> (r: Option<GenericArray<u8, RegistrationUploadLen<CS>>>)
+    ensures r is Some ==> r->0@ == input@,
+        //@vacuity
+{
+    proof {
+        broadcast use ga_axioms, seq_sub; lemma_lens::<CS>();
+        <CS::KeGroup as KeGroup>::lemma_de_pk_canonical(input@.subrange(0, npk::<CS>() as int));
+    }
+    match RegistrationUpload::<CS>::deserialize(input) {
+        Ok(m) => { let o = m.serialize(); proof {
+            let (k, h) = (npk::<CS>() as int, nh::<CS>() as int);
+            assert(input@ =~= input@.subrange(0, k) + input@.subrange(k, k + h) + input@.subrange(k + h, k + h + 32) + input@.subrange(k + h + 32, input@.len() as int));
+        } Some(o) }
+        Err(_) => None,
+    }
+}
+pub fn thm_c10_credential_request<CS: CipherSuite>(input: &[u8]) -> (r: Option<GenericArray<u8, CredentialRequestLen<CS>>>)
+    ensures r is Some ==> r->0@ == input@,
+        //@vacuity
+{
+    proof {
+        broadcast use ga_axioms, seq_sub; lemma_lens::<CS>();
+        <CS::KeGroup as KeGroup>::lemma_de_pk_canonical(input@.subrange(noe::<CS>() as int + 32, input@.len() as int));
+    }
+    match CredentialRequest::<CS>::deserialize(input) {
+        Ok(m) => { let o = m.serialize(); proof {
+            let e = noe::<CS>() as int;
+            assert(input@ =~= input@.subrange(0, e) + input@.subrange(e, e + 32) + input@.subrange(e + 32, input@.len() as int));
+        } Some(o) }
+        Err(_) => None,
+    }
+}
+pub fn thm_c10_credential_response<CS: CipherSuite>(input: &[u8]) -> (r: Option<GenericArray<u8, CredentialResponseLen<CS>>>)
+    ensures r is Some ==> r->0@ == input@,
+        //@vacuity
+{
+    proof {
+        broadcast use ga_axioms, seq_sub; lemma_lens::<CS>();
+        <CS::KeGroup as KeGroup>::lemma_de_pk_canonical(input@.subrange(cr_off_ke2::<CS>() + 32, cr_off_ke2::<CS>() + 32 + npk::<CS>() as int));
+    }
+    match CredentialResponse::<CS>::deserialize(input) {
+        Ok(m) => { let o = m.serialize(); proof {
+            let e = noe::<CS>() as int; let k2 = cr_off_ke2::<CS>(); let k = npk::<CS>() as int;
+            assert(input@ =~= input@.subrange(0, e) + input@.subrange(e, e + 32) + input@.subrange(e + 32, k2) + input@.subrange(k2, k2 + 32)
+                + input@.subrange(k2 + 32, k2 + 32 + k) + input@.subrange(k2 + 32 + k, input@.len() as int));
+        } Some(o) }
+        Err(_) => None,
+    }
+}
+pub fn thm_c10_credential_finalization<CS: CipherSuite>(input: &[u8]) -> (r: Option<GenericArray<u8, CredentialFinalizationLen<CS>>>)
+    ensures r is Some ==> r->0@ == input@,
+        //@vacuity
+{
+    match CredentialFinalization::<CS>::deserialize(input) { Ok(m) => Some(m.serialize()), Err(_) => None }
+}
+pub fn thm_c10_server_registration<CS: CipherSuite>(input: &[u8]) -> (r: Option<GenericArray<u8, ServerRegistrationLen<CS>>>)
+    ensures r is Some ==> r->0@ == input@,
+        //@vacuity
+{
+    proof {
+        broadcast use ga_axioms, seq_sub; lemma_lens::<CS>();
+        <CS::KeGroup as KeGroup>::lemma_de_pk_canonical(input@.subrange(0, npk::<CS>() as int));
+    }
+    match ServerRegistration::<CS>::deserialize(input) {
+        Ok(m) => { let o = m.serialize(); proof {
+            let (k, h) = (npk::<CS>() as int, nh::<CS>() as int);
+            assert(input@ =~= input@.subrange(0, k) + input@.subrange(k, k + h) + input@.subrange(k + h, k + h + 32) + input@.subrange(k + h + 32, input@.len() as int));
+        } Some(o) }
+        Err(_) => None,
+    }
+}
+pub fn thm_c10_server_login<CS: CipherSuite>(input: &[u8]) -> (r: Option<GenericArray<u8, Ke2StateLen<CS>>>)
+    ensures r is Some ==> r->0@ == input@,
+        //@vacuity
+{
+    proof { broadcast use ga_axioms, seq_sub; lemma_lens::<CS>(); }
+    match ServerLogin::<CS>::deserialize(input) {
+        Ok(m) => { let o = m.serialize(); proof {
+            let h = nh::<CS>() as int;
+            assert(input@ =~= input@.subrange(0, h) + input@.subrange(h, 2 * h) + input@.subrange(2 * h, 3 * h));
+        } Some(o) }
+        Err(_) => None,
+    }
+}
+pub fn thm_c10_client_registration<CS: CipherSuite>(input: &[u8]) -> (r: Option<GenericArray<u8, ClientRegistrationLen<CS>>>)
+    ensures r is Some ==> r->0@ == input@,
+        //@vacuity
+{
+    proof {
+        broadcast use ga_axioms, seq_sub; lemma_lens::<CS>();
+        <OprfGroup<CS> as Group>::lemma_de_scalar_canonical(input@.subrange(0, nok::<CS>() as int));
+    }
+    match ClientRegistration::<CS>::deserialize(input) {
+        Ok(m) => { let o = m.serialize(); proof {
+            let k = nok::<CS>() as int;
+            assert(input@ =~= input@.subrange(0, k) + input@.subrange(k, input@.len() as int));
+        } Some(o) }
+        Err(_) => None,
+    }
+}
+pub fn thm_c10_client_login<CS: CipherSuite>(input: &[u8]) -> (r: Option<GenericArray<u8, ClientLoginLen<CS>>>)
+    ensures r is Some ==> r->0@ == input@,
+        //@vacuity
+{
+    proof {
+        broadcast use ga_axioms, seq_sub; lemma_lens::<CS>();
+        let (o, e, k, s) = (nok::<CS>() as int, noe::<CS>() as int, npk::<CS>() as int, nsk::<CS>() as int);
+        <OprfGroup<CS> as Group>::lemma_de_scalar_canonical(input@.subrange(0, o));
+        <CS::KeGroup as KeGroup>::lemma_de_pk_canonical(input@.subrange(o + e + 32, o + e + 32 + k));
+        <CS::KeGroup as KeGroup>::lemma_de_sk_canonical(input@.subrange(o + e + 32 + k, o + e + 32 + k + s));
+    }
+    match ClientLogin::<CS>::deserialize(input) {
+        Ok(m) => { let out = m.serialize(); proof {
+            let (o, e, k, s) = (nok::<CS>() as int, noe::<CS>() as int, npk::<CS>() as int, nsk::<CS>() as int);
+            assert(input@ =~= input@.subrange(0, o) + (input@.subrange(o, o + e) + input@.subrange(o + e, o + e + 32) + input@.subrange(o + e + 32, o + e + 32 + k))
+                + (input@.subrange(o + e + 32 + k, o + e + 32 + k + s) + input@.subrange(o + e + 32 + k + s, input@.len() as int)));
+        } Some(out) }
+        Err(_) => None,
+    }
+}
+/// server setup, default in-memory key
+pub fn thm_c10_server_setup<CS: CipherSuite>(input: &[u8]) -> (r: Option<GenericArray<u8, ServerSetupLen<CS, PrivateKey<CS::KeGroup>>>>)
+    ensures r is Some ==> r->0@ == input@,
+        //@vacuity
+{
+    proof {
+        broadcast use ga_axioms, seq_sub; lemma_lens::<CS>();
+        let (h, k) = (nh::<CS>() as int, nsk::<CS>() as int);
+        <CS::KeGroup as KeGroup>::lemma_de_sk_canonical(input@.subrange(h, h + k));
+        <CS::KeGroup as KeGroup>::lemma_de_sk_canonical(input@.subrange(h + k, h + k + k));
+    }
+    match ServerSetup::<CS>::deserialize(input) {
+        Ok(m) => { let o = m.serialize(); proof {
+            let (h, k) = (nh::<CS>() as int, nsk::<CS>() as int);
+            assert(input@ =~= input@.subrange(0, h) + input@.subrange(h, h + k) + input@.subrange(h + k, h + k + k));
+        } Some(o) }
+        Err(_) => None,
+    }
+}
+/// C13 / C18: a server setup whose static key lives behind the external-key interface survives a native save / reload, whatever the
+/// serialized length of the key handle (the external key's own encode/decode pair is assumed to round-trip)
+pub fn thm_c13_server_setup_external<CS: CipherSuite, S: SecretKey<CS::KeGroup>>(setup: &ServerSetup<CS, S>) -> (r: Result<ServerSetup<CS, S>, ProtocolError<S::Error>>)
+    requires
+        S::de_res(setup.keypair.sk.ser()) == Ok::<S, InternalError<S::Error>>(setup.keypair.sk),
+        setup.keypair.sk.pk_res() == Ok::<PublicKey<CS::KeGroup>, InternalError<S::Error>>(setup.keypair.pk),
+        !<CS::KeGroup as KeGroup>::sk_is_zero(setup.fake_keypair.sk.0),
+        setup.fake_keypair.pk.0 == <CS::KeGroup as KeGroup>::pk_of(setup.fake_keypair.sk.0),
+        setup.keypair.sk.ser().len() == S::Len::n(),
+    ensures
+        r is Ok, r->Ok_0.oprf_seed == setup.oprf_seed, r->Ok_0.keypair.sk == setup.keypair.sk, r->Ok_0.keypair.pk == setup.keypair.pk,
+        r->Ok_0.fake_keypair.sk == setup.fake_keypair.sk, r->Ok_0.fake_keypair.pk == setup.fake_keypair.pk,
+        //@vacuity
+{
+    proof {
+        broadcast use ga_axioms, seq_sub; lemma_lens::<CS>(); S::lemma_sk_len();
+        <CS::KeGroup as KeGroup>::lemma_sk_roundtrip(setup.fake_keypair.sk.0);
+        <CS::KeGroup as KeGroup>::lemma_ser_sk_len(setup.fake_keypair.sk.0);
+    }
+    let bytes = setup.serialize();
+    proof {
+        let (h, l, k) = (nh::<CS>() as int, S::Len::n() as int, nsk::<CS>() as int);
+        let s = setup.oprf_seed@ + setup.keypair.sk.ser() + <CS::KeGroup as KeGroup>::ser_sk(setup.fake_keypair.sk.0);
+        assert(s.subrange(0, h) =~= setup.oprf_seed@);
+        assert(s.subrange(h, h + l) =~= setup.keypair.sk.ser());
+        assert(s.subrange(h + l, h + l + k) =~= <CS::KeGroup as KeGroup>::ser_sk(setup.fake_keypair.sk.0));
+    }
+    ServerSetup::<CS, S>::deserialize(&bytes)
+}
